@@ -420,6 +420,11 @@ class Model:
                 return self.ro_model.do_math(False)
 
         self.ro_model.reset()
+        # the decision rules follow every dvar() and adapt() declared so far
+        rc_model = self.ro_model.rc_model
+        del rc_model.vars[1:]
+        rc_model.last = rc_model.vars[0].first + rc_model.vars[0].size
+        self.var_ev_list = None
         self.rule_var()
 
         # Event-wise objective function
